@@ -64,7 +64,16 @@ end Example
 
 /-! ## absolute names -/
 
-/-- the statement without the split-package restriction: FALSE of the code (`C07_split_witness`) -/
+/-- `NoExtensionNextToSource` (the readable hypothesis) gives what the proof uses: supp's suffix order and
+    FileFinder's order select the same module file -/
+theorem sameChoice_generated (roots : List Path) (fs : Fs) (comps : List Str)
+    (h : NoExtensionNextToSource roots NONEXT_SUFFIXES EXTENSION_SUFFIXES fs comps = true) :
+    SameChoice roots SUFFIXES LOADER_SUFFIXES fs comps = true := by
+  have := sameChoice_of_noExt roots NONEXT_SUFFIXES EXTENSION_SUFFIXES fs comps h
+  rwa [← suffix_orders.1, ← suffix_orders.2] at this
+
+/-- the statement without the two restrictions that exclude the recorded defects: FALSE of the code
+    (`C07_split_witness`, `C07_ext_witness`) -/
 def C07_find_stmt : Prop :=
   ∀ (roots : List Path) (fs : Fs) (sysModules : List Str) (name : Str),
     validComps (splitOn DOT name) = true →
@@ -85,28 +94,31 @@ theorem C07_find (roots : List Path) (fs : Fs) (sysModules : List Str) (name : S
     (hns : NoNamespaceDirs roots fs (splitOn DOT name) = true)
     (hcl : NoModulePackageClash roots SUFFIXES fs (splitOn DOT name) = true)
     (hreg : Regular roots SUFFIXES fs (splitOn DOT name) = true)
+    (hext : NoExtensionNextToSource roots NONEXT_SUFFIXES EXTENSION_SUFFIXES fs (splitOn DOT name) = true)
     (hsp : NoSplitPackage roots SUFFIXES SOURCE_SUFFIXES LOADER_SUFFIXES fs (splitOn DOT name) = true) :
     (getModule roots SUFFIXES SOURCE_SUFFIXES fs sysModules name).file?
       = (importlibFind LOADER_SUFFIXES fs roots name).bind Loc.file? ∧
     (sysModules.contains name = false →
       (getModule roots SUFFIXES SOURCE_SUFFIXES fs sysModules name = .importError ↔
        importlibFind LOADER_SUFFIXES fs roots name = none)) := by
-  refine ⟨getModuleC_file roots SUFFIXES SOURCE_SUFFIXES LOADER_SUFFIXES fs _ hv sameSuffixes hns hcl hreg hsp _, ?_⟩
+  have hsc := sameChoice_generated roots fs _ hext
+  refine ⟨getModuleC_file roots SUFFIXES SOURCE_SUFFIXES LOADER_SUFFIXES fs _ hv sameSuffixes hns hcl hsc hreg hsp _, ?_⟩
   intro hnot
   unfold getModule importlibFind
   rw [hnot]
-  exact getModuleC_importError_iff roots SUFFIXES SOURCE_SUFFIXES LOADER_SUFFIXES fs _ hv sameSuffixes hns hcl hreg hsp
+  exact getModuleC_importError_iff roots SUFFIXES SOURCE_SUFFIXES LOADER_SUFFIXES fs _ hv sameSuffixes hns hcl hsc hreg hsp
 
-/-- the same for ANY two suffix tables with the same members: the order of the suffixes is immaterial in the domain -/
+/-- the same for ANY two suffix tables with the same members whose orders select the same module file -/
 theorem C07_find_any_suffix_order (roots : List Path) (sfx src lsfx : List Str) (fs : Fs) (comps : List Str)
     (hs : SameSuffixes sfx lsfx = true)
     (hv : validComps comps = true)
     (hns : NoNamespaceDirs roots fs comps = true)
     (hcl : NoModulePackageClash roots sfx fs comps = true)
+    (hsc : SameChoice roots sfx lsfx fs comps = true)
     (hreg : Regular roots sfx fs comps = true)
     (hsp : NoSplitPackage roots sfx src lsfx fs comps = true) (inSys : Bool) :
     (getModuleC roots sfx src fs inSys comps).file? = (importlibFindC lsfx fs roots comps).bind Loc.file? :=
-  getModuleC_file roots sfx src lsfx fs comps hv hs hns hcl hreg hsp inSys
+  getModuleC_file roots sfx src lsfx fs comps hv hs hns hcl hsc hreg hsp inSys
 
 /-! ## submodule proposals -/
 
@@ -141,11 +153,14 @@ theorem C07_list (roots : List Path) (fs : Fs) (sysModules : List Str) (root n :
     (hns : NoNamespaceDirs roots fs ((splitOn DOT root).filter (· ≠ []) ++ [n]) = true)
     (hcl : NoModulePackageClash roots SUFFIXES fs ((splitOn DOT root).filter (· ≠ []) ++ [n]) = true)
     (hreg : Regular roots SUFFIXES fs ((splitOn DOT root).filter (· ≠ []) ++ [n]) = true)
+    (hext : NoExtensionNextToSource roots NONEXT_SUFFIXES EXTENSION_SUFFIXES fs
+        ((splitOn DOT root).filter (· ≠ []) ++ [n]) = true)
     (hsp : NoSplitPackage roots SUFFIXES SOURCE_SUFFIXES LOADER_SUFFIXES fs
         ((splitOn DOT root).filter (· ≠ []) ++ [n]) = true) :
     ∃ f d, importlibFindC LOADER_SUFFIXES fs roots ((splitOn DOT root).filter (· ≠ []) ++ [n]) = some (.file f d) := by
   obtain ⟨f, b, hf⟩ := list_sub_importable roots SUFFIXES SOURCE_SUFFIXES fs sysModules root n h hn false
-  have h1 := getModuleC_file roots SUFFIXES SOURCE_SUFFIXES LOADER_SUFFIXES fs _ hv sameSuffixes hns hcl hreg hsp false
+  have h1 := getModuleC_file roots SUFFIXES SOURCE_SUFFIXES LOADER_SUFFIXES fs _ hv sameSuffixes hns hcl
+    (sameChoice_generated roots fs _ hext) hreg hsp false
   rw [hf] at h1
   cases hc : importlibFindC LOADER_SUFFIXES fs roots ((splitOn DOT root).filter (· ≠ []) ++ [n]) with
   | none => rw [hc] at h1; simp [ModRes.file?] at h1
@@ -162,6 +177,7 @@ example : validComps (splitOn DOT nm_abcm) = true ∧
     NoNamespaceDirs [[sR1], [sR2]] exFs (splitOn DOT nm_abcm) = true ∧
     NoModulePackageClash [[sR1], [sR2]] SUFFIXES exFs (splitOn DOT nm_abcm) = true ∧
     Regular [[sR1], [sR2]] SUFFIXES exFs (splitOn DOT nm_abcm) = true ∧
+    NoExtensionNextToSource [[sR1], [sR2]] NONEXT_SUFFIXES EXTENSION_SUFFIXES exFs (splitOn DOT nm_abcm) = true ∧
     NoSplitPackage [[sR1], [sR2]] SUFFIXES SOURCE_SUFFIXES LOADER_SUFFIXES exFs (splitOn DOT nm_abcm) = true ∧
     getModule [[sR1], [sR2]] SUFFIXES SOURCE_SUFFIXES exFs [] nm_abcm = .found [sR1, sA, sB, sC, sM ++ PY] true := by
   decide
@@ -169,6 +185,7 @@ example : validComps (splitOn DOT nm_abcm) = true ∧
 example : NoNamespaceDirs [[sR2], [sR1]] exFs [sA, sX] = true ∧
     NoModulePackageClash [[sR2], [sR1]] SUFFIXES exFs [sA, sX] = true ∧
     Regular [[sR2], [sR1]] SUFFIXES exFs [sA, sX] = true ∧
+    NoExtensionNextToSource [[sR2], [sR1]] NONEXT_SUFFIXES EXTENSION_SUFFIXES exFs [sA, sX] = true ∧
     NoSplitPackage [[sR2], [sR1]] SUFFIXES SOURCE_SUFFIXES LOADER_SUFFIXES exFs [sA, sX] = true ∧
     getModuleC [[sR2], [sR1]] SUFFIXES SOURCE_SUFFIXES exFs false [sA, sX] = .found [sR2, sA, sX ++ PY] true := by
   decide
@@ -190,8 +207,20 @@ theorem C07_split_witness :
     (getModule [[Witness.r1], [Witness.r2]] SUFFIXES SOURCE_SUFFIXES Witness.splitFs [] Witness.pk_m2).file?
       ≠ (importlibFind LOADER_SUFFIXES Witness.splitFs [[Witness.r1], [Witness.r2]] Witness.pk_m2).bind Loc.file? := by
   have h := Witness.C07_split
-  refine ⟨h.2.2.2.2.1, ?_⟩
-  rw [h.2.2.2.2.2.1, h.2.2.2.2.2.2]
+  refine ⟨h.2.2.2.2.2.1, ?_⟩
+  rw [h.2.2.2.2.2.2.1, h.2.2.2.2.2.2.2]
+  decide
+
+/-- second negation witness (extension module next to its source): all other hypotheses hold,
+    `NoExtensionNextToSource` fails, the model selects r1/m.py, the import system r1/m.abi3.so -/
+theorem C07_ext_witness :
+    NoExtensionNextToSource [[Witness.r1]] NONEXT_SUFFIXES EXTENSION_SUFFIXES Witness.extFs
+        (splitOn DOT Witness.mName) = false ∧
+    (getModule [[Witness.r1]] SUFFIXES SOURCE_SUFFIXES Witness.extFs [] Witness.mName).file?
+      ≠ (importlibFind LOADER_SUFFIXES Witness.extFs [[Witness.r1]] Witness.mName).bind Loc.file? := by
+  have h := Witness.C07_ext_next_to_source
+  refine ⟨h.2.2.2.2.2.1, ?_⟩
+  rw [h.2.2.2.2.2.2.1, h.2.2.2.2.2.2.2]
   decide
 
 /-- hence the unrestricted statement is false of the code as it is -/
